@@ -506,6 +506,18 @@ func (rpc *RPC) split(limit int) iter.Seq[RPC] {
 				return
 			}
 		}
+
+		// The remaining fields are not broken up: IDONTWANT entries, the extensions control
+		// message and the partial-message / test extension fields travel in one more RPC.
+		rest := RPC{from: rpc.from}
+		rest.Partial = rpc.Partial
+		rest.TestExtension = rpc.TestExtension
+		if ctl := rpc.Control; ctl != nil && (len(ctl.Idontwant) > 0 || ctl.Extensions != nil) {
+			rest.Control = &pb.ControlMessage{Idontwant: ctl.Idontwant, Extensions: ctl.Extensions}
+		}
+		if rest.Size() > 0 {
+			yield(rest)
+		}
 	}
 }
 
